@@ -33,6 +33,8 @@ Queries == {
   "progressions.to_chords('IM7', 'F')", "progressions.to_chords('Im7', 'F')", "progressions.to_chords(['VIIm'], 'F')", "progressions.to_chords(['VIIM'], 'F')",
   "progressions.to_chords('bII', 'F')", "progressions.to_chords('BII', 'F')", "progressions.to_chords('II', 'G')",
   "chords.from_shorthand('AM7')", "chords.from_shorthand('Cm')", "chords.from_shorthand('CM')", "keys.get_notes('A')", "keys.get_notes('E')", "keys.get_notes('g')",
+  "tunings.get_tuning('Guitar', 'Standard').find_chord_fingering(NoteContainer().from_chord('Am'))[:4]",
+  "tunings.get_tuning('Guitar', 'Standard').find_fingering(['E-2', 'B-2'])[:4]", "tunings.get_tuning('Guitar', 'Standard').find_frets('E-3')",
   "scales.Chromatic('F').ascending()", "scales.Chromatic('f').ascending()", "scales.Chromatic('A').descending()", "scales.Chromatic('a').descending()",
   "scales.Major('F').ascending()", "scales.NaturalMinor('F').ascending()",
   "intervals.from_shorthand('C', '7')", "notes.note_to_int('G')", "notes.note_to_int('G#')", "scales.determine(['A', 'B', 'C'])",
@@ -52,6 +54,9 @@ Mutations == {
   "mut(progressions.to_chords(['I', 'IV', 'V7'], 'C')[0], 'append')", "mut(progressions.to_chords('ii', 'G'), 'clear')",
   "mut(progressions.to_chords(['I'], 'C')[0], 'reverse')", "mut(progressions.to_chords(['VIIdim7', 'bII'], 'e')[1], 'setitem')",
   "mut(scales.Major('G').ascending(), 'reverse')", "mut(scales.NaturalMinor('E').ascending(), 'append')", "mut(scales.Major('C').descending(), 'clear')",
+  "mut(tunings.get_tuning('Guitar', 'Standard').find_chord_fingering(NoteContainer().from_chord('Am'))[0], 'append')",
+  "mut(tunings.get_tuning('Guitar', 'Standard').find_chord_fingering(NoteContainer().from_chord('Am'))[1], 'reverse')",
+  "mut(tunings.get_tuning('Guitar', 'Standard').find_fingering(['E-2', 'B-2'])[0], 'clear')", "mut(tunings.get_tuning('Guitar', 'Standard').find_frets('E-3'), 'clear')",
   "mut(intervals.invert(['C', 'E', 'G']), 'append')", "mut(scales.determine(['A', 'B', 'C#']), 'clear')", "mut(keys.get_key(3), 'tuple')"}
 Init == hist = <<>>
 Next == \E c \in Queries \cup Mutations : Len(hist) < D /\ hist' = Append(hist, c)
